@@ -20,7 +20,7 @@ MANIFEST_BASE = {
     "hooks": {
         "guard": "verif",
         "enable": "go build -tags verif (the harness module replaces github.com/risor-io/risor with /repo)",
-        "baseline_off_cmd": "cd /repo && go build ./... && go test -vet=off -count=1 ./...",
+        "baseline_off_cmd": "for m in $(cat /w/out/gomods.txt); do MF=$(cd /repo/$m && . /w/out/goenv.sh && gomodflag); (cd /repo/$m && go test $MF -json -vet=off -count=1 -timeout 25m ./...); done",
         "source_commits": ["baec371"],
         "add_only": True,
     },
